@@ -2378,6 +2378,11 @@ def inject_conflict(program: Program, kind: str, placement: str, ch: Chooser, sw
         val = variant.get("value")
         if val is None:
             val = ch.choice(RANGE_VALUES[kind])
+        if isinstance(val, str):
+            # a range that crosses the limit also registers its in-range ids first: they must be free, or there would be two conflicts
+            lo, hi = [int(x) for x in re.findall(r"\d+", val)]
+            if any(i in ctx.msg_ids for i in range(lo, hi + 1) if i <= 10000):
+                val = "10001 to 10002" if rest.startswith("reserved-high") else val
         info["value"] = val
         nm = ctx.fresh_name()
         if rest.startswith("msgid"):
